@@ -81,7 +81,7 @@ fn main() {
             let def = find(id);
             let tier = Tier::parse(tier).expect("tier");
             let (i, n): (usize, usize) = (i.parse().expect("i"), n.parse().expect("n"));
-            vharness::sim::pin_to_core(i % checks::cores());
+            vharness::sim::claim_core(i % checks::cores(), checks::cores());
             let mut p = (def.run)(tier, i, n, seed());
             p.gauge_max("max_steps_in_one_world", vharness::sim::MAX_STEPS_IN_ONE_WORLD.load(std::sync::atomic::Ordering::SeqCst));
             std::fs::write(out, serde_json::to_string(&p.to_json()).expect("json")).expect("write");
